@@ -85,6 +85,10 @@ void AspifTextInput::matchRule(char c) {
 		else {
 			data_->rule.startSum(matchInt());
 			matchAgg();
+			WeightLitSpan wlits = data_->rule.sum().lits;
+			for (WeightLitSpan::iterator it = begin(wlits), end = Potassco::end(wlits); it != end; ++it) {
+				require(weight(*it) >= 0, "non-negative weight expected");
+			}
 		}
 	}
 	match(".");
